@@ -211,3 +211,33 @@ def pat_match(p, s):
 @prim
 def join_sp(xs):
     return ' '.join(xs)
+
+
+@prim
+def has_non_ws(s):
+    """Contains a character other than CSS whitespace."""
+    import re
+    return re.search('[^ \t\r\n\f]', s) is not None
+
+
+@prim
+def strip_nonempty(s):
+    """str.strip() leaves something."""
+    return bool(s.strip())
+
+
+@prim
+def wild_strip(r):
+    """Remove '-*' runs that are followed by '-' or the end (a non-leading wildcard is redundant, RFC 4647 3.3.2)."""
+    import re
+    return re.sub(r'(?:-\*)+(?=-|\Z)', '', r)
+
+
+@prim
+def py_lower(s):
+    return s.lower()
+
+
+@prim
+def split_dash(s):
+    return s.split('-')
